@@ -52,6 +52,32 @@ func c01Scenarios(tier string) []*Scenario {
 			add(tr, RPC{Kind: "bd", Client: []string{"S0", "R", "S1", "R", "C", "R*"}, Handler: []string{"r", "s0", "r", "s1", "r*", "ret:ok"}})
 			add(tr, RPC{Kind: "bd", Client: []string{"S0", "S1", "C"}, Client2: []string{"R*"}, Handler: []string{"go", "r*", "join", "ret:ok"}, Handler2: []string{"s0", "s1"}})
 		}
+		// Header() may be asked for at any point of the receive sequence, any number of times: every
+		// placement of up to two Header() calls among the receives, with and without header metadata
+		// from the handler (without it the first frame the client sees is a message, not headers)
+		for _, kind := range []string{"ss", "bd"} {
+			for _, hdr := range [][]string{nil, {"h:a"}} {
+				recvs := max // receives before the final R*
+				for p1 := 0; p1 <= recvs; p1++ {
+					for p2 := p1; p2 <= recvs+1; p2++ { // p2 == recvs+1: a single Header() call
+						c := []string{"S0", "C"}
+						for k := 0; k <= recvs; k++ {
+							if p1 == k {
+								c = append(c, "H")
+							}
+							if p2 == k {
+								c = append(c, "H")
+							}
+							if k < recvs {
+								c = append(c, "R")
+							}
+						}
+						c = append(c, "R*")
+						add(tr, RPC{Kind: kind, Client: c, Handler: cat([]string{"r*"}, hdr, sends("s", max), []string{"ret:ok"})})
+					}
+				}
+			}
+		}
 		// two RPCs at once on one channel
 		add(tr, unary, unary)
 		add(tr, unary, RPC{Kind: "ss", Client: []string{"S0", "C", "R*"}, Handler: []string{"r", "s0", "s1", "ret:ok"}})
